@@ -12,6 +12,7 @@ variable {F : Type} [Add F] [Mul F] [Sub F] [Neg F] [Zero F] [One F] [DecidableE
 structure Powers (F : Type) where
   g : List F
   gg : List F
+  deriving DecidableEq, Repr
 
 /-- `kzg10::VerifierKey` (prepared elements are functions of `h`, `betaH`, see C12) -/
 structure VK (F : Type) where
@@ -19,11 +20,13 @@ structure VK (F : Type) where
   gammaG : F
   h : F
   betaH : F
+  deriving DecidableEq, Repr
 
 /-- `kzg10::Proof` -/
 structure Proof (F : Type) where
   w : F
   rv : Option F
+  deriving DecidableEq, Repr
 
 /-- `DensePolynomial::rand(d, rng)`: `d` draws, then draws until non-zero for the leading
 coefficient.  Returns the polynomial and the unused draws; `none` if the stream is too short. -/
@@ -90,9 +93,12 @@ def «open» (pw : Powers F) (p : List F) (z : F) (r : List F) : Except Err (Pro
     let (w, wr) := witness p z r
     openWith pw z r w wr
 
+/-- `random_v` read as a field element (`None` contributes nothing to the equation) -/
+def rvVal (rv : Option F) : F := match rv with | none => 0 | some x => x
+
 /-- The defect of `KZG10::check`: `lhs - rhs` of the pairing equation. -/
 def defect (vk : VK F) (c z v : F) (π : Proof F) : F :=
-  (c - v * vk.g - (match π.rv with | none => 0 | some rv => rv * vk.gammaG)) * vk.h
+  (c - v * vk.g - rvVal π.rv * vk.gammaG) * vk.h
     - π.w * (vk.betaH - z * vk.h)
 
 def check (vk : VK F) (c z v : F) (π : Proof F) : Bool := decide (defect vk c z v π = 0)
@@ -103,7 +109,7 @@ def batchAcc : List F → List F → List F → List (Proof F) → List F → F 
   | c :: cs, z :: zs, v :: vs, π :: πs, rs, r =>
     let (tc, tw, gm, ggm) := batchAcc cs zs vs πs rs.tail (rs.headD 0)
     (r * (π.w * z + c) + tc, r * π.w + tw, r * v + gm,
-      (match π.rv with | none => 0 | some rv => r * rv) + ggm)
+      r * rvVal π.rv + ggm)
   | _, _, _, _, _, _ => (0, 0, 0, 0)
 
 /-- `KZG10::batch_check`; `rs` are the verifier's 128-bit randomizers (the first proof uses 1). -/
